@@ -72,29 +72,30 @@ def boundary_set(rng, thorough):
     p53, p63 = 2.0 ** 53, 2.0 ** 63
     mx = 1.7976931348623157e308
     rmax = 1.3407807929942596e154   # sqrt(max): multiplication overflow boundary
-    d = [0.0, -0.0, tiny, -tiny, pred(minnorm), minnorm, 2.0 ** -1023,
-         pred(1.0), 1.0, succ(1.0), -succ(1.0),
-         EPS, pred(EPS), succ(EPS), EPS / 2, 1e-20, 2e-20, -1e-20, 2.5e-16, 1e-17,
+    d = [0.0, -0.0, tiny, -tiny, pred(minnorm), minnorm,
+         pred(1.0), 1.0, succ(1.0),
+         EPS, pred(EPS), succ(EPS), EPS / 2, 1e-20, 2e-20, -1e-20,
          p53 - 2, p53 - 1, p53, p53 + 2, -(p53 - 1), -p53, 2.0 ** 52 + 0.5,
          pred(p63), p63, succ(p63), -p63, pred(-p63), 2.0 ** 62, 2.0 ** 64,
-         mx, pred(mx), -mx, 1e308, 2.0 ** 1023, 2.0 ** 970, rmax, succ(rmax),
-         1e-300, 1e300, -1e300, 1e-160, 1e160]
-    d += [float(i) for i in (2, 3, 4, 5, 7, 8, 10, 31, 32, 33, 52, 53, 62, 63, 64, 65, 127, 255, 1000)]
-    d += [-1.0, -2.0, -3.0, -7.0, -63.0, -64.0, 1e10, 2.0 ** 31, 2.0 ** 32, -(2.0 ** 31)]
+         mx, -mx, 1e308, 2.0 ** 1023, rmax, succ(rmax), 1e-300, 1e300]
+    d += [float(i) for i in (2, 3, 5, 7, 31, 32, 52, 53, 62, 63, 64, 65)]
+    d += [-1.0, -2.0, -7.0, -63.0, -64.0, 1e10, 2.0 ** 31, 2.0 ** 32]
     # left-shift guard boundary: base = 2^(63-exp) and its neighbours, both signs
-    for e in ((1, 2, 10, 11, 12, 31, 32, 52, 53, 61, 62) if thorough else (10, 11, 31, 53, 62)):
+    for e in ((1, 2, 10, 11, 12, 31, 32, 52, 53, 61, 62) if thorough else (11, 31, 62)):
         b = 2.0 ** (63 - e)
         if b <= p53:
             d += [b, b - 1, -b, -b - 1] if b - 1 != b else [b, -b]
-    d += [0.5, 1.5, 2.5, -0.5, -1.5, 0.1, 0.2, 0.3, 1 / 3, 0.49999999999999994, 3.5, 63.5, -0.9,
-          1.9999999999999998, 3.141592653589793]
+    d += [0.5, 1.5, 2.5, -0.5, -1.5, 0.1, 1 / 3, 0.49999999999999994, 3.5, -0.9]
     if thorough:
-        d += [2 * tiny, 3 * tiny, succ(minnorm), -minnorm, succ(succ(1.0)), -pred(1.0), -EPS, 1e-16, 3e-16,
+        d += [2.0 ** -1023, -succ(1.0), 2.5e-16, 1e-17, pred(mx), 2.0 ** 970, -1e300, 1e-160, 1e160,
+              4.0, 8.0, 10.0, 33.0, 127.0, 255.0, 1000.0, -3.0, -(2.0 ** 31), 0.2, 0.3, 63.5,
+              1.9999999999999998, 3.141592653589793,
+              2 * tiny, 3 * tiny, succ(minnorm), -minnorm, succ(succ(1.0)), -pred(1.0), -EPS, 1e-16, 3e-16,
               -(p53 + 2), 2.0 ** 52, succ(-p63), -(2.0 ** 62), -1e308, pred(2.0 ** 1023), 2.0 ** 1022,
               2.0 ** 512, 1e-308, 4e-324 + 1e-310]
         d += [float(i) for i in (6, 9, 11, 12, 54, 61, 128, 256)]
         d += [-4.0, -65.0, -1e10, -2.5, 2.675, 1e-5, 64.5, 0.9, 4.35, 100.25, 2.718281828459045]
-    extra = 60 if thorough else 10
+    extra = 60 if thorough else 8
     for _ in range(extra):
         r = rng.below(6)
         if r == 0:      # random finite bit pattern
@@ -356,7 +357,7 @@ def plan_b(run, D):
     xs = list(D)
     if not thorough:
         rng.shuffle(xs)
-        xs = sorted(xs[:90])
+        xs = sorted(xs[:70])
     pairs = [(rng.choice(xs), rng.choice(xs)) for _ in range(300 if thorough else 60)]
     pairs += [(bits(0.0), bits(-0.0)), (bits(-0.0), bits(0.0)), (bits(1e-20), bits(2e-20))]
     return {"tri": tri, "lists": lists, "xs": xs, "pairs": pairs}
